@@ -11,7 +11,7 @@ Trees == << << E("a.xml", "xml", 0), E("b.xml", "xml", 0) >>,
             << E("ent.xml", "xmlent", 0), E("a.xml", "xml", 0), E("noext", "noext", 0) >>,
             << E("j.json", "json", 0), E("h.html", "html", 0), E("d", "dir", 0), E("k.xml", "xml", 3) >>,
             << E("data.txt", "txtjson", 0) >>,
-            << E("-", "stdinxml", 0), E("a.xml", "xml", 0) >>,                                   \* standard input next to a file
+            << E("-", "stdinxml", 0), E("a.xml", "xml", 0), E("pic.svg", "svg", 0), E("r%20x%s %d.xml", "xml", 0) >>,                                   \* standard input next to a file
             << E("ln.xml", "linkxml", 0), E("d", "dir", 0), E("l2.xml", "linkxml", 2), E("r.xml", "xml", 2) >> >>   \* symbolic links, named and found by -r
 Bools == {TRUE, FALSE}
 Flags == {[a |-> a, m |-> m, n |-> n, r |-> r, t |-> t, e |-> e, u |-> u, q |-> q] :
